@@ -673,6 +673,11 @@ void run_case_t(uint64_t idx, Rng& r) {
     obs(A, cls.c_str(), true, dense, r.chance(0.3));
     if (!rvalue && r.chance(0.3)) { obs(B, "being-merge-source", false, 12); fcount(fam, "source_reobserved"); }
     if (r.chance(0.25)) { grow_leaf(A, " upd"); obs(A, "updates-after-merge", true, dense, r.chance(0.5)); fcount(fam, "update_after_merge"); }
+    if (r.chance(0.04)) { SK& self = *A.sk; SK& same = *A.sk; self = same; A.hist += " self="; obs(A, "self-copy-assignment", true, 16); fcount(fam, "self_assign"); }
+    if (r.chance(0.04)) {     // the merge source is overwritten by a copy of the result before it is dropped
+      *B.sk = *A.sk; B.m = A.m; B.hist = "assigned[" + A.hist.substr(0, 60) + "]";
+      obs(B, "copy-assignment", true, 16); fcount(fam, "copy_assign");
+    }
     pool.erase(pool.begin() + static_cast<std::ptrdiff_t>(b));
   }
   N& root = pool[0];
